@@ -1318,11 +1318,15 @@ def run(tier):
         'constructs': {l: sum(1 for v in info['labels'].values() if v == l) for l in sorted(set(info['labels'].values()))},
         'class_notes': {q: inf['notes'] for q, (k, inf) in sorted(info['construct'].items()) if k == 'rows' and inf.get('notes')},
         'no_longer_modelled_as_expected': info['regressions'],
+        'transcribed_functions_pinned': len(info['pins']), 'transcribed_functions_changed': info['pin_changes'],
     }
     broken = chk.prove(['SarpyModel.Props.C05', 'SarpyModel.Gen.XmlTables', 'SarpyModel.Drivers'], 'SarpyModel.Props.C05',
                        'Sarpy.Props.C05', REQUIRED, gen_info)
     for m, why in info['import_failures']:
         broken.append(f'element module {m} does not import: {why}')
+    for k in info['pin_changes']:
+        # a function of the generic machinery that Spec.XmlFmt transcribes by hand changed (normalised AST): the transcription is stale
+        broken.append(f'{k} changed since Spec.XmlFmt was transcribed from it (pinned AST in translate/xml_base_pins.json)')
     for r in info['regressions']:
         # a hand-written method no longer matches the construct it was translated to: the theorems no longer speak about this class
         broken.append(f"class {r['cls']} was inside the model as '{r['expected']}' and is now '{r['now']}': {str(r['why'])[:400]}")
